@@ -113,6 +113,7 @@ type CallsSpec struct {
 	Param string
 	Args  []string // names bound to fresh callback args
 	When  Expr
+	Holding []string // lock fields (of the receiver) held while the callback runs
 	With  []*Clause // constraints on callback args (ensures-like, may mention arg names)
 	Text  string
 }
@@ -148,8 +149,15 @@ type FuncSpec struct {
 	HasEmits   bool
 	EmitTags   []string
 	NoInline   bool
+	Goroutine  string
+	OnceBody   bool
 	StrictGhost bool
 	Panics     string
+}
+
+// IsFunctional: the spec constrains behaviour (not just goroutine / once_body annotations).
+func (f *FuncSpec) IsFunctional() bool {
+	return f.HasMod || len(f.Requires) > 0 || len(f.Ensures) > 0 || len(f.Behaviours) > 0 || f.HasEmits || len(f.Calls) > 0 || f.Event || f.Trusted
 }
 
 type SpecFn struct {
@@ -181,7 +189,7 @@ type TypeSpec struct {
 	Guards     []GuardSpec
 	LockLevels map[string]int
 	Immutable  []string
-	Confined   []string
+	Confined   map[string]string // field -> owning goroutine
 }
 
 type LemmaSpec struct {
@@ -599,7 +607,7 @@ var clauseKeywords = map[string]bool{
 	"emits": true, "complete": true, "disjoint": true, "loop": true, "invariant": true,
 	"calls": true, "property": true, "guarded_by": true, "lock_level": true, "immutable": true,
 	"confined": true, "let": true, "trusted": true, "lemma": true, "decreases": true, "noinline": true,
-	"with": true, "panics": true, "ghost": true, "update": true, "trusted_ensures": true,
+	"with": true, "panics": true, "ghost": true, "update": true, "trusted_ensures": true, "goroutine": true, "once_body": true,
 }
 
 type rawClause struct {
@@ -859,7 +867,16 @@ func parseSpecFile(path string, pkg string) (sf *SpecFile, err error) {
 		case "immutable":
 			curT.Immutable = append(curT.Immutable, strings.FieldsFunc(rc.text, func(r rune) bool { return r == ',' || r == ' ' })...)
 		case "confined":
-			curT.Confined = append(curT.Confined, strings.FieldsFunc(rc.text, func(r rune) bool { return r == ',' || r == ' ' })...)
+			k := strings.Index(rc.text, ":")
+			if k < 0 {
+				panic(fmt.Errorf("%s: confined FIELDS : GOROUTINE", where))
+			}
+			if curT.Confined == nil {
+				curT.Confined = map[string]string{}
+			}
+			for _, f := range strings.FieldsFunc(rc.text[:k], func(r rune) bool { return r == ',' || r == ' ' }) {
+				curT.Confined[f] = strings.TrimSpace(rc.text[k+1:])
+			}
 		case "property":
 			cur.Tags = append(cur.Tags, strings.FieldsFunc(rc.text, func(r rune) bool { return r == ',' || r == ' ' })...)
 		case "let":
@@ -955,6 +972,10 @@ func parseSpecFile(path string, pkg string) (sf *SpecFile, err error) {
 			cur.Trusted = true
 		case "noinline":
 			cur.NoInline = true
+		case "once_body":
+			cur.OnceBody = true
+		case "goroutine":
+			cur.Goroutine = strings.TrimSpace(rc.text)
 		case "panics":
 			cur.Panics = strings.TrimSpace(rc.text)
 		case "behaviour":
@@ -995,6 +1016,10 @@ func parseSpecFile(path string, pkg string) (sf *SpecFile, err error) {
 			// calls h(ids) when COND
 			t := rc.text
 			cs := &CallsSpec{Text: t}
+			if k := strings.Index(t, " holding "); k >= 0 {
+				cs.Holding = strings.FieldsFunc(t[k+9:], func(r rune) bool { return r == ',' || r == ' ' })
+				t = t[:k]
+			}
 			if k := strings.Index(t, " when "); k >= 0 {
 				cs.When = mustExpr(t[k+6:], where)
 				t = t[:k]
